@@ -30,7 +30,7 @@ func varsOf(t *Tree, acc map[string]bool) {
 func famTry() {
 	r := rand.New(rand.NewSource(*fSeed))
 	prop := *fFor
-	gc := GenCfg{Custom: true, Alias: true, MaxKids: 4, Lists: true, Strings: true, Consts: true, ConstBias: 30}
+	gc := GenCfg{Custom: true, Alias: true, MaxKids: 4, Lists: true, Strings: true, OddStrings: true, Consts: true, ConstBias: 30}
 	if prop == "C04" {
 		gc.Failing = true
 	}
